@@ -17,7 +17,7 @@ func init() {
 			"C09.goroutine — every goroutine started on behalf of ParseQuery runs a function that closes the channel it sends tokens on at every exit, and ParseQuery defers (on every path) a function that receives from that channel until it is closed; so no parse, wherever it stops, leaves the lexer goroutine blocked (or there is no goroutine at all); " +
 			"C09.eof — every path through the top-level parse function to a return that can carry a query takes the branch on which the next token's type equals the end-of-input token (paths ending in the diverging error helper are cut), so trailing tokens are never accepted; " +
 			"C09.phrange — the int32 placeholder number stored in the tree comes only from constants or from strconv.ParseInt(_, 10, bits<=32) with its error tested (or an explicit upper-bound test), so huge numbers cannot wrap; the `>= 1` test dominates the store; " +
-			"C09.unquote — the string decoder removes exactly one delimiter at each end of a value token before turning `\"\"` into one quote (so '\"\"' adjacent to the delimiters is kept); " +
+			"C09.lexinput — the lexer scans exactly ParseQuery's argument; C09.unquote — the string decoder removes exactly one delimiter at each end of a value token before turning `\"\"` into one quote (so '\"\"' adjacent to the delimiters is kept); " +
 			"C09.panics — every panic in the parser package carries a value implementing error (or is the re-panic of a recovered runtime.Error), and ParseQuery defers a recover handler, so parse errors surface as errors. " +
 			"NOT decided: that the accepted language equals the documented EBNF and that the tree has the prescribed shape (language equivalence); absence of runtime panics from the lexer's index arithmetic and termination of the state machine (need relational numeric invariants that no analysis in reach proves).",
 		assumptions: []string{"go/ssa CFG; NORETURN summary of the error helper (all its exits are panics)", "channel close/receive semantics"},
@@ -33,6 +33,7 @@ func runC09(c *Ctx) {
 	c09PhRange(c)
 	c09Panics(c)
 	unquoteRule(c, "C09.unquote")
+	lexInputRule(c, "C09.lexinput")
 }
 
 func c09Goroutine(c *Ctx) {
